@@ -13,25 +13,25 @@ CLAIMED = {
    note="Trusted as C01. Error kinds with several simultaneous defects are judged against the set of violated clauses.",
    tech="TLA+ spec (Cal/DateTime) + TLC model checking + vectors replayed + TLC trace validation"),
  "C16": dict(cat="model_checking", ref="§C16",
-   text="TLC checks the split/join laws (floor, 0<=ns<1e9, recombination, monotone steps) on wide integers within R of 17 anchors (multiples of 1e9, i64 and i128 ends, range ends) and emits vectors for the three from_total_nanoseconds constructors; seeded i128 counts are trace-validated.",
+   text="TLC checks the split/join laws (floor, 0<=ns<1e9, recombination, monotone steps) on wide integers within R of 19 anchors (multiples of 1e9, i64 and i128 ends of the seconds and of the count itself, range ends) and emits vectors for the three from_total_nanoseconds constructors; seeded i128 counts (incl. range-end counts through fixed-offset zones) are trace-validated. Thorough tier: TLAPS proof of the split laws for every integer count (uniqueness of floor, monotonicity, successor).",
    note="Trusted: Wide.tla (itself model-checked against TLC's native integers by MC_Wide), TLC, harness formatting.",
-   tech="TLA+ spec (Wide/DateTime) + TLC model checking + vectors replayed + TLC trace validation"),
+   tech="TLA+ spec (Wide/DateTime) + TLC model checking + vectors replayed + TLC trace validation (+ TLAPS proof of the split laws, thorough)"),
  "C03": dict(cat="model_checking", ref="§C03",
-   text="TLC model-checks the scaled zone model (all zones with <= 2 (quick) / 3 (thorough) transitions on a 7-second grid, 5 type menus incl. equal offsets and no-op transitions, 6 leap tables, rule none/fixed; theorems: clock changes only at transitions, round trips, totality) and emits one lookup/localtime vector per (zone, instant) replayed into TimeZoneRef/TimeZone/DateTime::from_timespec; a table-length sweep (every parity of the binary search), i64-extreme transition times and seeded zones are recorded and validated by TLC against TypeAt ('latest transition <= instant').",
+   text="TLC model-checks the scaled zone model (all zones with <= 2 (quick) / 3 (thorough) transitions on a 7-second grid, 5 type menus incl. equal offsets and no-op transitions, 6 leap tables, rule none/fixed; theorems: clock changes only at transitions, round trips, totality) and emits one lookup/localtime vector per (zone, instant) replayed into TimeZoneRef/TimeZone/DateTime::from_timespec; a table-length sweep (every parity of the binary search), i64-extreme transition times and seeded zones are recorded and validated by TLC against TypeAt ('latest transition <= instant'). The algorithm layer (Algo.tla: lookup and leap scans in the shape of the Rust) is model-checked to refine the declarative definitions on every scaled zone, and every recorded lookup is also compared with it. Thorough tier: PlusCal binary search / leap scan (AlgoSearch) and a TLAPS proof of the binary search for tables of any length.",
    note="Trusted: TLC, the declarative TypeAt/ToLeap definitions, harness formatting. Beyond the scaled model and the sweep the zone space is sampled (seed in evidence).",
-   tech="TLA+ spec (Zone) + TLC model checking of the scaled zone model + vectors replayed + TLC trace validation"),
+   tech="TLA+ spec (Zone, Algo) + TLC model checking of the scaled zone model + vectors replayed + TLC trace validation (+ TLAPS proof of the search loop, thorough)"),
  "C05": dict(cat="model_checking", ref="§C05",
-   text="Search results are judged against the preimage of the zone's clock (ValidInstants) computed by the TLA+ spec: soundness, completeness, no duplicates, each entry's fields/type/instant. Exhaustive on the scaled zone model (TLC also proves round trip and totality there), sampled on seeded zones with leap tables, full-range offsets, overlapping candidates and trailing rules; every event is validated by TLC.",
-   note="Outside MustSucceed (a candidate instant outside the supported range, year outside the rule guard) OutOfRange or the exact content are both admitted. Rules with start = end in every year are outside the judged domain.",
-   tech="TLA+ spec (Find) + TLC model checking + vectors replayed + TLC trace validation"),
+   text="Search results are judged against the preimage of the zone's clock (ValidInstants) computed by the TLA+ spec: soundness, completeness, no duplicates, each entry's fields/type/instant. Exhaustive on the scaled zone model (TLC also proves round trip and totality there), sampled on seeded zones with leap tables, full-range offsets, overlapping candidates and trailing rules; every event is validated by TLC. The search walk of the algorithm layer (Algo.tla: AFind, the table walk and the rule window walk in the shape of find_date_time) is model-checked to return exactly the declarative entries on every scaled zone and on a family of rule zones, every recorded search is also compared with it, and the recorded finding K1 is reproduced by TLC as a required-to-fail witness.",
+   note="Outside MustSucceed (a candidate instant outside the supported range, year outside the rule guard) OutOfRange or the exact content are both admitted. Rules with start = end in every year are outside the judged domain. On zones of the recorded classes K1/K2 a disagreement is the known finding only if the result equals the algorithm layer's (as-implemented) and its tag is one the finding explains.",
+   tech="TLA+ spec (Find, Algo) + TLC model checking incl. refinement of the search walk + vectors replayed + TLC trace validation"),
  "C06": dict(cat="model_checking", ref="§C06",
    text="Gaps are specified per transition (structural definition), results must be a permutation-free match of ValidInstants + Gaps in non-decreasing order of instant, and unique/earliest/latest must be the functions of the returned list the statement describes; exhaustive on the scaled model, sampled beyond, all validated by TLC.",
    note="As C05. Order among equal instants is unconstrained, as the statement leaves it.",
    tech="TLA+ spec (Find) + TLC model checking + vectors replayed + TLC trace validation"),
  "C12": dict(cat="model_checking", ref="§C12",
-   text="The two time scales are defined from the physical meaning of leap records; TLC checks monotonicity, round trip for non-deleted instants, inserted second sharing, and 'reported transition instant = switch point of the forward lookup' on the scaled model; lookups (forward conversion) and Skipped entries (inverse conversion) on probe zones with random valid tables (both signs, <= 40 records) and the real 27-record table are validated by TLC.",
+   text="The two time scales are defined from the physical meaning of leap records; TLC checks monotonicity, round trip for non-deleted instants, inserted second sharing, and 'reported transition instant = switch point of the forward lookup' on the scaled model; lookups (forward conversion) and Skipped entries (inverse conversion) on probe zones with random valid tables (both signs, <= 40 records) and the real 27-record table are validated by TLC. Thorough tier: TLAPS proofs of the forward scan and of the repaired inverse conversion for leap tables of any length.",
    note="A genuine defect (negative leap second at a transition's own count) was found and repaired: see known_findings.json 'fixed'.",
-   tech="TLA+ spec (Zone leap relations) + TLC model checking + vectors replayed + TLC trace validation"),
+   tech="TLA+ spec (Zone leap relations, Algo) + TLC model checking + vectors replayed + TLC trace validation (+ TLAPS proofs of both conversions, thorough)"),
  "C13": dict(cat="model_checking", ref="§C13",
    text="ZoneVerdict (set of admissible outcomes) is model-checked for well-formedness on all small tuples (51 k), each emitted as a construction vector through both constructors; seeded valid zones with exactly one defect of each kind (incl. i64/i32 extremes) and local time types over all designation shapes are validated by TLC: accept/refuse, error kind, owned = borrowed, accessors echo the arguments.",
    note="With several simultaneous defects any violated clause's error is admitted; with one defect exactly its error.",
@@ -45,12 +45,12 @@ CLAIMED = {
    note="The allocating search's own result in the same event is the reference list (and is itself judged as in C05/C06).",
    tech="TLA+ trace spec with buffer state + TLC trace validation + scaled-model vectors"),
  "C04": dict(cat="model_checking", ref="§C04",
-   text="DST periods are defined by orientation ([S(y),E(y)) for a northern rule, [S(y),E(y+1)) for a southern one) with S/E from declarative day notations; TLC checks the Mm.w.d reading against its arithmetic form on all 420 notations x 400 years, the period laws (start inclusive, end exclusive, no change at New Year) on a rule family, and emits lookups at S(y)-1, S(y), E(y)-1, E(y), New Year +-1 replayed through rule-only zones; seeded accepted rules (all notation pairs, near-coincident days, |time| up to 7 days, whole offset window, corpus-shaped rules) are probed at every start/end instant of three years +-1 s and validated by TLC.",
+   text="DST periods are defined by orientation ([S(y),E(y)) for a northern rule, [S(y),E(y+1)) for a southern one) with S/E from declarative day notations; TLC checks the Mm.w.d reading against its arithmetic form on all 420 notations x 400 years, the period laws (start inclusive, end exclusive, no change at New Year) on a rule family, and emits lookups at S(y)-1, S(y), E(y)-1, E(y), New Year +-1 replayed through rule-only zones; seeded accepted rules (all notation pairs, near-coincident days, |time| up to 7 days, whole offset window, corpus-shaped rules) are probed at every start/end instant of three years +-1 s, at New Year and at the edges of the year guard, and validated by TLC. The 12-leaf evaluator of the algorithm layer (Algo.tla) is model-checked to refine the period definition on the rule family (K2 excluded, and reproduced by TLC as a required-to-fail witness). Thorough tier: TLAPS proof of the evaluator for every interleaving rule and every year (S, E, New Year as unconstrained functions; the southern case needs E(y) < S(y) in the current year - exactly K2).",
    note="Rules that do not interleave are outside the statement's quantifier (either type admitted); rules with start = end in every year are unspecified. Known finding K2 (southern rules with coincident start/end) is reported as KNOWN-FINDING.",
-   tech="TLA+ spec (Rule) + TLC model checking + vectors replayed + TLC trace validation"),
+   tech="TLA+ spec (Rule, Algo) + TLC model checking incl. refinement of the rule evaluator + vectors replayed + TLC trace validation (+ TLAPS proof of the evaluator, thorough)"),
  "C11": dict(cat="model_checking", ref="§C11",
-   text="The acceptance criterion is the statement's literal year-by-year 'never flips' definition over a 400-year cycle; TLC derives from it, per ordered pair of day notations, the six integers that decide every d, checks the derivation against the literal definition on concrete rules, and emits constructor calls at every decision breakpoint k*86400 + {-1,0,1} (several time/offset splits incl. window edges) that are replayed; seeded rules, window-edge offsets/times and invalid rule days are validated by TLC with the specific error.",
-   note="Quick tier: ~1 400 selected pairs (structural families + seeded sample); thorough: more pairs. Not all 1 151^2 pairs in one run.",
+   text="The acceptance criterion is the statement's literal year-by-year 'never flips' definition over a 400-year cycle; TLC derives from it, per ordered pair of day notations, the six integers that decide every d, checks the derivation against the literal definition on concrete rules, and emits constructor calls at every decision breakpoint k*86400 + {-1,0,1} (eight time/offset splits incl. window edges; beyond one week of d every feasible split) that are replayed; seeded rules, window-edge offsets/times, invalid rule days and whole rules around a day one step outside its range are validated by TLC with the specific error.",
+   note="Quick tier: ~2 500 selected pairs (structural families incl. all same/adjacent-month Mm.w.d shapes + seeded sample); thorough: all 1 151^2 = 1 324 801 ordered pairs (16 TLC JVMs print the verdict at every breakpoint; a native sweep calls the constructor at each through eight splits).",
    tech="TLA+ spec (Rule: Consistent/RuleSummary) + TLC model checking (MC_Cons) + vectors replayed + TLC trace validation"),
  "C18": dict(cat="model_checking", ref="§C18",
    text="Render and an independently written Read (scanning from the right) are model-checked for Read(Render(x)) = x and the stated shape on a corner grid (81 k states: i32 year ends, 1-5 digit and negative years, second 60, ns corners, offsets around 60/3600/36000/86400/360000 and the i32 ends); the grid is replayed through DateTime::new().to_string(); seeded date-times over the whole offset range are rendered by the crate and TLC checks bytes = Render, shape, and that the reader recovers fields/ns/offset.",
@@ -61,19 +61,19 @@ CLAIMED = {
    note="Which error a non-sentence gets is not part of the statement: any refusal matches. Surrounding whitespace is excluded here (C20).",
    tech="TLA+ spec (TzString) + TLC model checking + vectors replayed + TLC trace validation"),
  "C08": dict(cat="model_checking", ref="§C08",
-   text="TzFile.tla contains a byte-exact encoder and a total decoder; TLC checks Decode(Encode(z)) = z over small zones in v1/v2/v3 (ignored 32-bit block holding a different zone, shared-suffix and empty designations, indicator vectors, plain/extended footers) and decodes every truncation and single-byte corruption of a share of them; all are replayed. Real tzdata 2025b files (posix and right/) are decoded by the TLA+ decoder inside TLC and compared field by field with the crate's zone, as are single-field corruptions of real files.",
+   text="TzFile.tla contains a byte-exact encoder and a total decoder; TLC checks Decode(Encode(z)) = z over small zones in v1/v2/v3 (ignored 32-bit block holding a different zone, shared-suffix and empty designations, indicator vectors, plain/extended footers) and decodes every truncation and single-byte corruption of a share of them; all are replayed. Real tzdata 2025b files (posix and right/) are decoded by the TLA+ decoder inside TLC and compared field by field with the crate's zone, as are single-field corruptions of real files and synthesised well-formed files of the shapes the corpus lacks (designation tables beyond 256 bytes, suffix designations, up to 200 types, 32-bit blocks of v2+ files that are not valid zones of their own, all indicator combinations, leap tables).",
    note="Quick: 60 corpus files (24 fixed interesting ones + seeded sample); thorough: all 894. Files whose two headers disagree on the version are left open. Error kinds are not compared.",
    tech="TLA+ spec (TzFile encoder/decoder) + TLC model checking + vectors replayed + TLC trace validation of real files"),
  "C20": dict(cat="model_checking", ref="§C20",
-   text="Resolution is specified as a plan (ordered read requests) and an outcome; TLC checks the plan laws over all small configurations (16 values x directory lists x every absent/valid/malformed/unreadable assignment, with decoy files at every path a wrong reading would open) and each configuration is executed through TimeZoneSettings::new(dirs, recording_read_fn); the recorded request sequence, the outcome kind (zone / I/O error / decoding error) and the zone are validated by TLC, also on seeded larger configurations.",
+   text="Resolution is specified as a plan (ordered read requests) and an outcome; TLC checks the plan laws over all small configurations (16 values x directory lists x every absent/valid/malformed/unreadable assignment, with decoy files at every path a wrong reading would open) and each configuration is executed through TimeZoneSettings::new(dirs, recording_read_fn); the recorded request sequence, the outcome kind (zone / I/O error / decoding error) and the zone are validated by TLC, also on seeded larger configurations, on values padded with non-ASCII white space, and after earlier resolutions on the same settings value (the judged call must not depend on them).",
    note="Non-UNIX cfg branches are not built here.",
    tech="TLA+ spec (Resolve) + TLC model checking + TLC trace validation"),
  "C10": dict(cat="other", ref="§C10",
-   text="Differential conformance of three implementations to one specification: glibc (time.tzset/localtime with TZ=:/file; right/ files at the leap count) and CPython zoneinfo observations of the vendored tzdata 2025b files are logged next to the crate's own lookups and searches, and TLC validates every observation of every implementation against TypeAt / ValidInstants of the zone decoded from the file (transitions -1/0/+1, seeded instants 1900-2500, footer-governed years; mktime: the instants each reference implies must equal the specification's set). POSIX TZ strings are checked against glibc's TZ parser the same way.",
-   note="Quick: 48 files; thorough: all 894. Instants at or after the last transition of a zone with an empty footer are outside the comparison (C03 defines that outcome). zoneinfo is limited to years 1..9999 and has no DST flag.",
+   text="Differential conformance of three implementations to one specification: glibc (time.tzset/localtime with TZ=:/file; right/ files at the leap count) and CPython zoneinfo observations of the vendored tzdata 2025b files are logged next to the crate's own lookups and searches, and TLC validates every observation of every implementation against TypeAt / ValidInstants of the zone decoded from the file (transitions -1/0/+1, seeded instants 1900-2500, footer-governed years and the footer rule's own transitions to the second; mktime: the instants each reference implies must equal the specification's set, searched through the allocating and the buffer-based form on a reused buffer). POSIX TZ strings are checked against glibc's TZ parser the same way, incl. the rule's transitions to the second.",
+   note="Quick: 48 files; thorough: all 894. Instants at or after the last transition of a zone with an empty footer are outside the comparison (C03 defines that outcome). zoneinfo is limited to years 1..9999 and has no DST flag. glibc evaluates a rule for the calendar year of the instant only; its changes within 8 days of a New Year are not used to aim exact-second probes.",
    tech="TLA+ trace validation of tz-rs, glibc and CPython zoneinfo observations against the same spec"),
  "C15": dict(cat="other", ref="§C15",
-   text="Threads.tla: TLC explores every interleaving of 3 threads x 2-3 calls of the faithful library (responses are functions of arguments and immutable shared zones; no action touches a shared cell) and is required to find the torn read when a shared cache is added. The 'no cell' premise is bound to the code by a token-level scan of src/ and Cargo.toml whose facts TLC judges against the allowed set (SystemTime::now in utils/system_time.rs, std::fs as the default read function), compile-time auto-trait assertions for 19 public types, the deterministic workload on 2..64 threads sharing the same zones (each thread's result must equal the sequential, TLC-validated one) and a rerun of the environment-facing calls with TZ/TZDIR/LC_ALL/HOME changed.",
+   text="Threads.tla: TLC explores every interleaving of 3 threads x 2-3 calls of the faithful library (responses are functions of arguments and immutable shared zones; no action touches a shared cell) and is required to find the torn read when a shared cache is added. The 'no cell' premise is bound to the code by a token-level scan of src/ and Cargo.toml whose facts TLC judges against the allowed set (SystemTime::now in utils/system_time.rs, std::fs as the default read function), compile-time auto-trait assertions for 19 public types, the deterministic workload on 2..64 threads sharing the same zones (each thread's result must equal the sequential, TLC-validated one) and reruns of the environment-facing calls and in-memory resolutions with TZ/TZDIR/LC_ALL/HOME changed, from a working directory holding readable files named like the TZ values, and interleaved with failing file-system calls that leave errno set (results and error texts must be identical).",
    note="Interleavings are exhaustive in the model and sampled in the real code; the scan is syntactic (state hidden behind a macro the scan does not list would be missed).",
    tech="TLA+ model of concurrent clients (TLC) + static footprint facts and threaded traces validated by TLC"),
  "C19": dict(cat="exploration", ref="§C19",
